@@ -77,7 +77,22 @@ def run(prog: Program, rep, thorough: bool) -> None:
                                   '_config': ev.new_inst(st, prog.cls(C.M_TC, 'Config'),
                                                          {f: S(f'cfg.{f}') for f in prog.namedtuple_fields(prog.cls(C.M_TC, 'Config'))})})
     site = LB.site
+    # the list the rows go to: what the row sites of the loop append to
+    row_lists = set()
+    for c_ in F.row_calls:
+        p_ = getattr(c_, '_parent', None)
+        if isinstance(p_, ast.Call) and isinstance(p_.func, ast.Attribute) and p_.func.attr == 'append' \
+                and isinstance(p_.func.value, ast.Name) and F._inside(c_, F.loop):
+            row_lists.add(p_.func.value.id)
+    if len(row_lists) != 1:
+        raise AnalysisError(f'_integrate: the rows of the loop are appended to {sorted(row_lists) or "nothing"}: the shape '
+                            f'"one list of rows filled inside the loop" is gone, the limit block cannot be read')
+    row_list = next(iter(row_lists))
     if site is None:
+        appends = [n_ for st_ in LB.stmts for n_ in ast.walk(st_) if isinstance(n_, ast.Call)
+                   and isinstance(n_.func, ast.Attribute) and n_.func.attr in ('append', 'extend', 'insert')]
+        if appends:
+            raise AnalysisError(f'limit block: `{norm(appends[0])[:60]}` instead of a row built in place: shape not readable')
         rep.fail('C04.R1', tc.path, gnode.line, F.func.qualname, 'last-row',
                  'no row is built from the violating state before the error is raised')
     args = F.row_args(site) if site is not None else {}
@@ -191,9 +206,11 @@ def run(prog: Program, rep, thorough: bool) -> None:
     raises = LB.raises
     for r in raises:
         c = r.exc
-        if not (isinstance(c, ast.Call) and norm(c.func) == 'RangeError' and len(c.args) == 2 and norm(c.args[1]) == 'ranges'):
+        if isinstance(c, ast.Call) and norm(c.func) == 'RangeError' and len(c.args) == 2 and not isinstance(c.args[1], (ast.Name, ast.List, ast.Constant)):
+            raise AnalysisError(f'`{norm(r)[:60]}`: the trajectory attached is computed by an expression, not the row list: not readable')
+        if not (isinstance(c, ast.Call) and norm(c.func) == 'RangeError' and len(c.args) == 2 and norm(c.args[1]) == row_list):
             rep.fail('C04.R1', tc.path, r.lineno, F.func.qualname, 'raise-args',
-                     f'`{norm(r)[:60]}` does not attach the partial trajectory')
+                     f'`{norm(r)[:60]}` does not attach the partial trajectory (`{row_list}`)')
 
     # ---- R2 ------------------------------------------------------------------------------------
     cfg = F.cfg
